@@ -59,14 +59,15 @@ pub mod numbigint {
         type Error = ParseI192Error;
         #[verifier::external_body]
         fn try_from(x: BigInt) -> (r: Result<I192, ParseI192Error>)
-            ensures r matches Ok(y) ==> y.v() == x.v(), r is Ok <==> in_i192(x.v())
+            // (whether the most negative value -2^191 itself is accepted is left open: not needed, not assumed)
+            ensures r matches Ok(y) ==> y.v() == x.v(), r is Ok ==> in_i192(x.v()), i192_min() < x.v() <= i192_max() ==> r is Ok
         { unimplemented!() }
     }
     impl TryFrom<BigInt> for I256 {
         type Error = ParseI256Error;
         #[verifier::external_body]
         fn try_from(x: BigInt) -> (r: Result<I256, ParseI256Error>)
-            ensures r matches Ok(y) ==> y.v() == x.v(), r is Ok <==> in_i256(x.v())
+            ensures r matches Ok(y) ==> y.v() == x.v(), r is Ok ==> in_i256(x.v()), i256_min() < x.v() <= i256_max() ==> r is Ok
         { unimplemented!() }
     }
 }
